@@ -51,6 +51,11 @@ DataLen(sh) ==
     [] sh.kind = "Prompt" -> 1 + 1
     [] OTHER -> 1 + Fss(sh)
 
+\* the wire format's own limit (C05: "TLV bodies <= 255 bytes"): the body of a filestore-response TLV of a
+\* Finished PDU is announced in one octet.  (In Metadata options the code writes filestore requests and
+\* responses WITHOUT a length octet - ops.rs MetadataTLV::encode - so only the names' own LV limit applies.)
+WellFormed(sh) == (sh.kind = "Finished" /\ sh.nresp > 0) => 1 + 1 + sh.l1 + 1 + sh.l2 + 1 <= 255
+
 HeaderLen(sh) == 4 + 2 * sh.idw + sh.seqw
 LenField(sh) == DataLen(sh) + (IF sh.crc THEN 2 ELSE 0)      \* header.rs:336-339
 TotalLen(sh) == HeaderLen(sh) + LenField(sh)
